@@ -13,6 +13,8 @@ from common import Infra, EVIDENCE, seed  # noqa: E402
 CHECKS = {
     "C13": ("props_pipeline", "check_c13"),
     "C14": ("props_pipeline", "check_c14"),
+    "C11": ("props_entry", "check_c11"),
+    "C16": ("props_entry", "check_c16"),
     "C12": ("props_validate", "check_c12"),
     "C01": ("props_codec", "check_c01"),
     "C02": ("props_codec", "check_c02"),
